@@ -20,6 +20,7 @@ RULE = (
     "greatest; the reader's candidate list for (k,k) is exactly that path. Non-trivial: some k is within one "
     "sample of a file's first sample ceil(j*C*n/d) (class boundary-noninteger-rate counts those with n % d != 0)."
 )
+RULE += ' Since rounds 7-8: prefixes with a blank at either end, subdirectories that can be searched but not listed, a second metadata writer alive in the process.'
 ASSUMPTIONS = ["overlay build of /repo; h5py 3.16 from /venv"]
 FLOORS = {"nontrivial": 0.4, "boundary-noninteger-rate": 0.2}
 
